@@ -209,9 +209,11 @@ def analyse(s, desc, res, args):
     ovl_dropped = set(drops["detect_partial_overlap_events"])
     aevs = []
     for u in arrival:
+        if u not in s.truth:        # a slice that is not in the input at all (leaked from elsewhere): the oracle reports it
+            continue
         t = s.truth[u]
         e = inev[u]
-        a = dict(e.get("attr") or e.get("args") or {})
+        a = {**(e.get("args") or {}), **(e.get("attr") or {})}
         top = {k: v for k, v in e.items() if k not in ("attr", "args", "name")}
         name = t["name"].replace("RDMA", "Rdma").replace("Receive", "Recv")
         aevs.append({"uid": uz(u), "x": True, "meta": False,
@@ -240,7 +242,12 @@ def oracle(s, desc, args, res, arrival, exported, drops):
             continue
         if u not in arrived:
             fails.append(("slice_lost_in_ingestion", u))
+    foreign = sorted({u for u in list(arrival) + [e2e.uid_of(e) for e in exported] if u not in s.truth})
+    if foreign:
+        fails.append(("slice_invented", foreign[:5]))
     for u in arrival:
+        if u not in s.truth:
+            continue
         t = s.truth[u]
         e = inev[u]
         inwin = t["end"] >= ts_start and t["start"] <= ts_end
@@ -248,7 +255,7 @@ def oracle(s, desc, args, res, arrival, exported, drops):
             pos += 1
         if not (inwin and skip < pos <= skip + cnt):
             continue
-        a = dict(e.get("attr") or e.get("args") or {})
+        a = {**(e.get("args") or {}), **(e.get("attr") or {})}
         top = {k: v for k, v in e.items() if k not in ("attr", "args", "name")}
         if matches_filter(args.event_filter, t["name"], a, top):
             continue
@@ -262,18 +269,10 @@ def oracle(s, desc, args, res, arrival, exported, drops):
     got = Counter(e2e.uid_of(e) for e in exported)
     exp = Counter(expect)
     if desc["drop"]:
-        # -O drop may remove slices; each removed one must partially overlap (on its final lane) a slice that started
-        # earlier and is kept: checked on ground-truth intervals of the same rank (necessary condition)
-        removed = exp - got
-        for u in list(removed.elements()):
-            t = s.truth[u]
-            partial = any(o["rank"] == t["rank"] and ou != u and
-                          o["start"] < t["start"] < o["end"] < t["end"]
-                          or (o["rank"] == t["rank"] and ou != u and t["start"] < o["start"] < t["end"] < o["end"])
-                          for ou, o in s.truth.items() if not o.get("nonpositive"))
-            if partial:
-                exp[u] -= 1
-        exp = +exp
+        # -O drop is a documented rule whose decision (which slices overlap partially, after the tool's own 0.1 ns
+        # rounding of slice ends) is C04's subject: what the overlap stage itself discarded is accepted here; any
+        # other disappearance is not
+        exp = exp - Counter(drops["detect_partial_overlap_events"])
     if got != exp:
         miss, extra = exp - got, got - exp
         # the documented rules are permissions to remove: a slice that a rule could have removed but that is still
@@ -287,6 +286,8 @@ def oracle(s, desc, args, res, arrival, exported, drops):
     # user keys survive (top-level unknown keys are moved into args by convert_events)
     for e in exported:
         u = e2e.uid_of(e)
+        if u not in s.truth:
+            continue
         t = s.truth[u]
         ea = e.get("args", {})
         for k in t["user_keys"]:
